@@ -408,3 +408,37 @@ func (g *G) genZoneDates(id string) *History {
 	}
 	return h
 }
+
+// genVarySpelling: one variant, its Vary value spelled differently by successive replies ("X-B, X-C", "X-C, X-B",
+// "x-b,x-c"): the identifier and the nominated values are the same, so it is ONE stored response and must be one
+// reference. A second reference survives when the first is replaced by a later reply and keeps the replaced
+// representation in use; every new spelling adds another.
+func (g *G) genVarySpelling(id string) *History {
+	h := &History{ID: id, Prop: g.prop, Class: "vary-spelling", Backend: pick(g, "mem", "mem", "fs"), Logger: "discard"}
+	url := "http://a.test/vs"
+	spell := []string{"X-B, X-C", "X-C, X-B", "x-b,x-c", "X-B,X-C", "X-C , X-B"}
+	rep := func(at int64, body, vary string) []Reply {
+		hd := Hdr{{"Date", dateAt(at, 0)}, {"Cache-Control", "max-age=600"}, {"Etag", `"` + body + `"`}}
+		if vary != "" {
+			hd = append(hd, [2]string{"Vary", vary})
+		}
+		return []Reply{{Status: 200, BodyFail: -1, Body: body, Hdr: hd}}
+	}
+	at := int64(0)
+	add := func(hdr Hdr, body, vary string) {
+		h.Ops = append(h.Ops, Op{Op: "req", AtNs: at, Method: "GET", URL: url, Hdr: hdr, Replies: rep(at, body, vary)})
+		at += sec
+	}
+	nc := [2]string{"Cache-Control", "no-cache"}
+	add(Hdr{{"X-A", "1"}, {"X-B", "b"}}, "r0", "X-A")
+	add(Hdr{{"X-A", "2"}, {"X-B", "b"}}, "b", spell[g.r.Intn(len(spell))])
+	for i := 0; i < 1+g.r.Intn(3); i++ {
+		// a forced validation of the first variant answered by a full reply in another spelling of the second
+		add(Hdr{{"X-A", pick(g, "1", "2")}, {"X-B", "b"}, nc}, "n"+strconv.Itoa(i), spell[g.r.Intn(len(spell))])
+	}
+	if g.chance(0.7) {
+		add(Hdr{{"X-B", "b"}, nc}, "n2", "")
+		add(Hdr{{"X-B", "b"}}, "late", "")
+	}
+	return h
+}
